@@ -31,7 +31,13 @@ import (
 
 // ---------------------------------------------------------------- vocabulary
 
-var hostPool = []string{"", "a", "b", "c"} // index 0 = tag absent; order of the pool = byte order
+var hostPool = []string{"", "a", "b", "c", // index 0 = tag absent; order of the pool = byte order
+	// used by designed data only (many series in one tag set of one shard: more than GOMAXPROCS)
+	"d", "e", "f", "g", "h", "i", "j", "k", "l", "m", "n", "o", "p", "q", "r", "s", "t", "u", "v"}
+
+// the generator draws hosts from the first genHosts entries
+const genHosts = 4
+
 var regionPool = []string{"", "x", "y"}
 var strPool = []string{"", "a", "a b", "b", "zz"} // string field values, in byte order
 
@@ -244,11 +250,11 @@ type pendingSnap struct {
 
 type env struct {
 	pending []pendingSnap // snapshots in flight for the layout being queried
-	stores map[string]*tsdb.Store
-	meta   *metaStub
-	exec   *query.Executor
-	nextID uint64
-	nextDB int
+	stores  map[string]*tsdb.Store
+	meta    *metaStub
+	exec    *query.Executor
+	nextID  uint64
+	nextDB  int
 }
 
 func newEnv(dir string) *env {
